@@ -29,7 +29,7 @@ def _load_known(pid):
 
 
 def _describe(group, case):
-    keys = ["path", "method", "query", "content_type", "body", "observed", "status", "detail", "alive_after", "facts", "head", "num", "start", "end", "blocks_returned", "note"]
+    keys = ["phase", "observed", "process_completed", "requests", "answered", "not_answered", "handler_panics", "first_bad", "child_stderr", "path", "method", "query", "content_type", "body", "observed", "status", "detail", "alive_after", "facts", "head", "num", "start", "end", "blocks_returned", "note"]
     return "%s: %s" % (group, json.dumps({k: case.get(k) for k in keys if k in case})[:3000])
 
 
@@ -48,6 +48,7 @@ SPEC = {
         "blocks_range": ("mism_blocks_range", None),
         "unbounded_count": (None, "pf_unbounded_count"),
         "alive": (None, "pf_alive"),
+        "concurrency": (None, "pf_concurrency"),
     },
     "describe": _describe,
     "extra_args": ["-extra", os.path.join(vf.COQ, "Gen", "Routes.json")],
